@@ -251,3 +251,33 @@ func (c *Ctx) indexSpellings(prop string) {
 		c.St.Eval("index-spellings:"+prop, true)
 	}
 }
+
+// nonASCIIKeysDerived (C19, C11): tree-form writes, reads and unsets through keys with multi-byte characters in a
+// non-final position, on plain and derived objects (a separator found by character index is not a byte offset).
+func (c *Ctx) nonASCIIKeysDerived() {
+	m := c.M
+	for _, derived := range []bool{false, true} {
+		m.Case("non-ascii-keys")
+		raw := m.NewObject(gvStr("größe"), m.RefGV(m.NewObject(gvStr("value"), gvInt(1))), gvStr("é"), m.RefGV(m.NewList(gvInt(1), gvInt(2))), gvStr("日本"), m.RefGV(m.NewObject()))
+		o := raw
+		if derived {
+			o = m.Derive(raw)
+		}
+		for _, p := range []string{".größe.value", ".é#1", ".日本.語", ".größe.neu.tief", ".ü.x", ".é#3", ".😀.k#0"} {
+			m.OTypeOfTF(o, p)
+			m.OSetTF(o, p, gvInt(7))
+			m.OGetTF(o, p)
+			m.OTypeOfTF(o, p)
+			m.Keys(raw)
+		}
+		for _, p := range []string{".größe.value", ".é#0", ".ü.x", ".日本"} {
+			m.OUnsetTF(o, p)
+			m.OTypeOfTF(o, p)
+		}
+		m.Ego(o)
+		lraw := m.NewList(m.RefGV(o))
+		m.SetTF(lraw, "#0.größe.w", gvInt(8))
+		m.GetTF(lraw, "#0.größe.w")
+		c.St.Eval("non-ascii-keys", true)
+	}
+}
